@@ -8,98 +8,228 @@
 (* exactly what the Rust harness records from the real crate.  The same    *)
 (* definitions are therefore evaluated (a) by TLC on every behaviour of    *)
 (* the bounded model (MC_Seq) and (b) by TLC on traces recorded from the   *)
-(* real crate (TraceMon).  `checks` is the set of property ids a suite     *)
-(* asks for; `root` the AST the probes of "sub" stimuli are attached to.   *)
+(* real crate (TraceMon).  C is the case record of the catalogue (module   *)
+(* Gen): C.checks = the property ids the case asks for, C.nsubj / C.nbeh = *)
+(* how many hot subjects exist.                                            *)
 (***************************************************************************)
 EXTENDS RxRef
 
 GetB(s, i) == IF i >= 1 /\ i <= Len(s) THEN s[i] ELSE FALSE
 GetI(s, i) == IF i >= 1 /\ i <= Len(s) THEN s[i] ELSE 0
+GetS(s, i) == IF i >= 1 /\ i <= Len(s) THEN s[i] ELSE <<>>
 RECURSIVE Pad(_, _, _)
 Pad(s, n, x) == IF Len(s) >= n THEN s ELSE Pad(Append(s, x), n, x)
 SetAt(s, i, x, dflt) == [Pad(s, i, dflt) EXCEPT ![i] = x]
+RECURSIVE CountTrue(_)
+CountTrue(s) == IF s = <<>> THEN 0 ELSE (IF Head(s) THEN 1 ELSE 0) + CountTrue(Tail(s))
+
+(* harness counter ids (tools/gen.py uses the same) *)
+CntTap == 1
+CntFin == 4
+CntDefer == 5
+CntFn == 6
+CntPull == 7
 
 Mon0 == [ np     |-> 0,       \* probes created so far
           term   |-> <<>>,    \* probe -> saw a terminal
           plog   |-> <<>>,    \* probe -> its notifications so far, as <<t, v>>
-          ph     |-> <<>>,    \* probe -> handle it was subscribed through (0: none)
+          ph     |-> <<>>,    \* probe -> (virtual) handle it was subscribed through (0: none)
+          pr     |-> <<>>,    \* probe -> reaction code of its callback
+          pfired |-> <<>>,    \* probe -> its once-only reaction has fired
+          gp     |-> <<>>,    \* group probes: <<probe, outer probe, index of the group>>
+          ngrp   |-> <<>>,    \* outer probe -> number of groups announced to it
           hroot  |-> <<>>,    \* handle -> AST it subscribed
-          g      |-> <<>>,    \* global timeline <<a, t, v>> of the notifications sent into the hot inputs
           h0     |-> <<>>,    \* handle -> length of g when the subscription was made
-          unsubd |-> <<>>,    \* handle -> unsubscribe() has returned
+          hcomp  |-> <<>>,    \* handle -> composite handle it was appended to (0: none)
+          hx     |-> <<>>,    \* handle -> the published AST whose connect() returned it (0: not a connection)
+          hend   |-> <<>>,    \* handle -> 1 + length of g when it was unsubscribed (0: still subscribed)
+          g      |-> <<>>,    \* global timeline <<a, t, v>> of the notifications sent into the hot inputs
+          unsubd |-> <<>>,    \* handle -> unsubscribe() has returned (or it was torn down by its composite)
           closed |-> <<>>,    \* handle -> is_closed() has answered true
-          nh     |-> 0,
+          trig   |-> <<>>,    \* handle -> a finalize trigger (terminal or unsubscribe) has happened
+          sdead  |-> <<>>,    \* subject -> terminated or unsubscribed
+          nh     |-> 0,       \* handles (reaction-made subscriptions get virtual ones)
+          rh     |-> <<>>,    \* index used by the stimuli ("sub"/"connect"/"mnew" order) -> handle
+          first  |-> <<>>,    \* C13: normalised observation of the first subscription
+          lastcnt|-> Cnt0,
+          connected |-> FALSE,
           bad    |-> <<>> ]   \* property ids violated by the last step
 
 AddBad(m, id) == IF SeqContains(m.bad, id) THEN m ELSE [m EXCEPT !.bad = Append(@, id)]
-
 RECURSIVE AddBadSeq(_, _)
 AddBadSeq(m, ids) == IF ids = <<>> THEN m ELSE AddBadSeq(AddBad(m, Head(ids)), Tail(ids))
 SetToSeq(ss) == LET f[T \in SUBSET ss] == IF T = {} THEN <<>> ELSE LET x == CHOOSE y \in T : TRUE IN <<x>> \o f[T \ {x}] IN f[ss]
 AddBads(m, ids) == AddBadSeq(m, SetToSeq(ids))
-RefProps == {"C03", "C04", "C05", "C13"}
+Flag(m, cond, id, checks) == IF id \in checks /\ cond THEN AddBad(m, id) ELSE m
+
+(* properties decided by the reference oracle: "delivers exactly the documented sequence" *)
+RefProps == {"C03", "C04", "C05", "C06", "C11", "C12", "C13"}
+
+(* a new (virtual) handle for a subscription *)
+(* every subscription leaves a marker <<0, "H", I(handle)>> in the timeline, so that no two subscriptions *)
+(* are made at the same timeline position                                                                *)
+NewHandle(m, root) ==
+  [m EXCEPT !.nh = @ + 1, !.hroot = Append(@, root), !.h0 = Append(@, Len(m.g)), !.hcomp = Append(@, 0),
+            !.hx = Append(@, 0), !.g = Append(@, <<0, "H", I(m.nh + 1)>>)]
 
 (* --- one probe notification --- *)
-LogOne(m, e, checks) ==
+LogOne(m, e, C) ==
   LET p == e.p
+      checks == C.checks
       h == GetI(m.ph, p)
-      m1 == IF "C01" \in checks /\ GetB(m.term, p) THEN AddBad(m, "C01") ELSE m
-      m2 == IF "C02" \in checks /\ h > 0 /\ GetB(m.unsubd, h) THEN AddBad(m1, "C02") ELSE m1
-      m3 == IF "C17" \in checks /\ h > 0 /\ GetB(m.closed, h) THEN AddBad(m2, "C17") ELSE m2
-      m4 == [m3 EXCEPT !.plog = SetAt(@, p, Append(IF p <= Len(@) THEN @[p] ELSE <<>>, <<e.t, e.v>>), <<>>)]
-      m5 == IF e.t \in {"E", "C"} THEN [m4 EXCEPT !.term = SetAt(@, p, TRUE, FALSE)] ELSE m4
-      (* a group announcement creates one probe (attached from inside the callback) *)
-      m6 == IF e.t = "N" /\ e.v[1] = "g" THEN [m5 EXCEPT !.np = @ + 1] ELSE m5
+      m1 == Flag(m, GetB(m.term, p), "C01", checks)
+      m2 == Flag(m1, h > 0 /\ GetB(m.unsubd, h), "C02", checks)
+      m3 == Flag(m2, h > 0 /\ GetB(m.closed, h), "C17", checks)
+      m4 == [m3 EXCEPT !.plog = SetAt(@, p, Append(GetS(@, p), <<e.t, e.v>>), <<>>)]
+      m5 == IF e.t \in {"E", "C"}
+            THEN [m4 EXCEPT !.term = SetAt(@, p, TRUE, FALSE),
+                            !.trig = IF h > 0 THEN SetAt(@, h, TRUE, FALSE) ELSE @]
+            ELSE m4
+      rc == GetI(m.pr, p)
+      (* subscriptions made by the scripted reaction of the callback *)
+      m6 == IF e.t # "N" THEN m5
+            ELSE IF rc = 1 /\ e.v[1] = "g" THEN
+              LET k == GetI(m5.ngrp, p) + 1 IN
+              [m5 EXCEPT !.np = @ + 1, !.ngrp = SetAt(@, p, k, 0), !.gp = Append(@, <<m5.np + 1, p, k>>)]
+            ELSE IF (rc = 2 /\ ~GetB(m5.pfired, p)) \/ rc = 3 THEN
+              LET mh == NewHandle(m5, m5.hroot[h]) IN
+              [mh EXCEPT !.np = @ + 1, !.ph = SetAt(@, m5.np + 1, mh.nh, 0), !.pfired = SetAt(@, p, TRUE, FALSE)]
+            ELSE m5
   IN m6
 
 RECURSIVE LogAll(_, _, _)
-LogAll(m, log, checks) == IF log = <<>> THEN m ELSE LogAll(LogOne(m, Head(log), checks), Tail(log), checks)
+LogAll(m, log, C) == IF log = <<>> THEN m ELSE LogAll(LogOne(m, Head(log), C), Tail(log), C)
 
-
-(* --- reference check (C03 / C13): every subscription's log equals the documented sequence --- *)
+(* --- reference check: every subscription's log equals the documented sequence --- *)
 RefCheck(m) ==
   \A p \in 1..m.np :
      LET h == GetI(m.ph, p) IN
-     h > 0 => LET got == IF p <= Len(m.plog) THEN m.plog[p] ELSE <<>> IN
-              \/ got = MsgsOf(Ref(m.hroot[h], m.g, m.h0[h], Len(m.g), {}))
-              \/ \E var \in (SUBSET AmbiguousChoices) \ {{}} : got = MsgsOf(Ref(m.hroot[h], m.g, m.h0[h], Len(m.g), var))
+     (h > 0 /\ m.hroot[h] > 0 /\ Op(m.hroot[h]) # "group_by") =>
+        LET got == GetS(m.plog, p)
+            (* an unsubscribed subscription receives what was documented up to the unsubscription *)
+            hi == IF GetI(m.hend, h) > 0 THEN m.hend[h] - 1 ELSE Len(m.g) IN
+        \/ got = MsgsOf(Ref(m.hroot[h], m.g, m.h0[h], hi, {}))
+        \/ \E var \in (SUBSET AmbiguousChoices) \ {{}} : got = MsgsOf(Ref(m.hroot[h], m.g, m.h0[h], hi, var))
+
+(* --- group_by (C20): one group per key in first-appearance order, every item to exactly its group --- *)
+RECURSIVE KeysOf(_, _, _), ItemsOfKey(_, _, _)
+KeysOf(c, items, acc) == IF items = <<>> THEN acc
+                         ELSE LET k == KeyF(c, Head(items)) IN
+                              KeysOf(c, Tail(items), IF SeqContains(acc, k) THEN acc ELSE Append(acc, k))
+ItemsOfKey(c, items, k) == IF items = <<>> THEN <<>>
+                           ELSE (IF KeyF(c, Head(items)) = k THEN <<Head(items)>> ELSE <<>>) \o ItemsOfKey(c, Tail(items), k)
+TermMsgs(s) == IF s.term = "C" THEN <<<<"C", U>>>> ELSE IF s.term = "E" THEN <<<<"E", s.ev>>>> ELSE <<>>
+
+GroupCheck(m, C) ==
+  \A p \in 1..m.np :
+     LET h == GetI(m.ph, p) IN
+     (h > 0 /\ m.hroot[h] > 0 /\ Op(m.hroot[h]) = "group_by") =>
+        LET x == m.hroot[h]
+            src == Ref(S1(x), m.g, m.h0[h], Len(m.g), {})
+            keys == KeysOf(PA(x), src.items, <<>>)
+            base == C.nsubj + C.nbeh
+        IN /\ GetS(m.plog, p) = [i \in 1..Len(keys) |-> <<"N", G(base + i, keys[i])>>] \o TermMsgs(src)
+           /\ \A j \in 1..Len(m.gp) :
+                 m.gp[j][2] = p =>
+                    /\ m.gp[j][3] <= Len(keys)
+                    /\ GetS(m.plog, m.gp[j][1]) = NMsgs(ItemsOfKey(PA(x), src.items, keys[m.gp[j][3]])) \o TermMsgs(src)
+
+(* the AST index of the share / publish operator in the chain below x (0 if none) *)
+RECURSIVE ShareIn(_)
+ShareIn(x) == IF x = 0 THEN 0
+              ELSE IF Op(x) \in {"share", "publish"} THEN x
+              ELSE IF Op(x) \in RefUnaryOps THEN ShareIn(S1(x)) ELSE 0
 
 (* --- one step --- *)
-MonStep(m0, step, checks) ==
+MonStep(m0, step, C) ==
   LET s == step.s
       o == step.o
+      checks == C.checks
       m == [m0 EXCEPT !.bad = <<>>]
       (* bookkeeping done BEFORE the observations of the step are judged *)
       pre ==
         CASE s.k = "sub" ->
-               [m EXCEPT !.np = @ + 1, !.nh = @ + 1,
-                         !.ph = SetAt(@, m.np + 1, m.nh + 1, 0),
-                         !.hroot = Append(@, s.a),
-                         !.h0 = Append(@, Len(m.g))]
+               LET sh == ShareIn(s.a)
+                   (* the first subscription of a shared observable connects it: marker in the timeline *)
+                   mk == IF sh > 0 /\ Op(sh) = "share" /\ ~m.connected
+                         THEN [m EXCEPT !.g = Append(@, <<0, "S", I(sh)>>), !.connected = TRUE] ELSE m
+                   mh == NewHandle(mk, s.a) IN
+               [mh EXCEPT !.np = @ + 1, !.rh = Append(@, mh.nh),
+                          !.ph = SetAt(@, mk.np + 1, mh.nh, 0), !.pr = SetAt(@, mk.np + 1, s.b, 0)]
+          [] s.k = "connect" ->
+               LET mk == [m EXCEPT !.g = Append(@, <<0, "S", I(s.a)>>), !.connected = TRUE]
+                   mh == NewHandle(mk, 0) IN
+               [mh EXCEPT !.rh = Append(@, mh.nh), !.hx[mh.nh] = s.a]
+          [] s.k = "mnew" ->
+               LET mh == NewHandle(m, -1) IN [mh EXCEPT !.rh = Append(@, mh.nh)]      \* root -1: a bare composite
           [] s.k = "emit" -> [m EXCEPT !.g = Append(@, <<s.a, s.t, s.v>>)]
           [] s.k = "emitc" -> [m EXCEPT !.g = Append(@, <<s.a + 100, s.t, s.v>>)]     \* `create` inputs: own id range
           [] s.k = "sunsub" -> [m EXCEPT !.g = Append(@, <<s.a, "X", U>>)]
+          [] s.k = "bnext" -> [m EXCEPT !.g = Append(@, <<s.a + 200, "N", s.v>>)]     \* BehaviorSubject inputs: own id range
+          [] s.k = "bnextby" -> [m EXCEPT !.g = Append(@, <<s.a + 200, "N", MapF(s.b, BLatest(m.g, Len(m.g), s.a))>>)]
+          [] s.k = "bterm" -> [m EXCEPT !.g = Append(@, <<s.a + 200, s.t, s.v>>)]
           [] OTHER -> m
-      mid == LogAll(pre, o.log, checks)
+      mid == LogAll(pre, o.log, C)
+      H(a) == mid.rh[a]            \* the handle a stimulus names
       (* bookkeeping done AFTER the call has returned *)
       post ==
-        CASE s.k = "unsub" -> [mid EXCEPT !.unsubd = SetAt(@, s.a, TRUE, FALSE)]
+        CASE s.k = "unsub" ->
+               LET h == H(s.a) IN
+               [mid EXCEPT !.g = IF mid.hx[h] > 0 THEN Append(@, <<0, "D", I(mid.hx[h])>>) ELSE @,   \* the connection was cut
+                           !.hend = [i \in 1..mid.nh |-> IF GetI(mid.hend, i) = 0 /\ (i = h \/ GetI(mid.hcomp, i) = h)
+                                                        THEN Len(mid.g) + 1 ELSE GetI(mid.hend, i)],
+                           !.unsubd = [i \in 1..mid.nh |-> GetB(mid.unsubd, i) \/ i = h \/ GetI(mid.hcomp, i) = h],
+                           !.trig = [i \in 1..mid.nh |-> GetB(mid.trig, i) \/ i = h \/ GetI(mid.hcomp, i) = h]]
+          [] s.k = "mappend" ->      \* child handle b joins composite a; a composite already torn down must tear the child down at once
+               LET c == H(s.b) IN
+               [mid EXCEPT !.hcomp = SetAt(@, c, H(s.a), 0),
+                           !.hend = IF GetB(mid.unsubd, H(s.a)) /\ GetI(mid.hend, c) = 0 THEN SetAt(@, c, Len(mid.g) + 1, 0) ELSE @,
+                           !.unsubd = IF GetB(mid.unsubd, H(s.a)) THEN SetAt(@, c, TRUE, FALSE) ELSE @]
           [] s.k = "closed" ->
                IF o.fault # "" THEN mid
-               ELSE IF o.ret = B(TRUE) THEN [mid EXCEPT !.closed = SetAt(@, s.a, TRUE, FALSE)]
-               ELSE IF "C17" \in checks /\ GetB(mid.closed, s.a) THEN AddBad(mid, "C17")
-               ELSE mid
+               ELSE IF o.ret = B(TRUE) THEN [mid EXCEPT !.closed = SetAt(@, H(s.a), TRUE, FALSE)]
+               (* known finding F17: a bare composite answers "closed" while it is empty / all its children are   *)
+               (* closed, and "not closed" again after a later append                                           *)
+               ELSE Flag(mid, (GetB(mid.closed, H(s.a)) /\ ~("F17" \in KF /\ mid.hroot[H(s.a)] = -1))
+                              \/ GetB(mid.unsubd, H(s.a)), "C17", checks)
+          [] s.k = "emit" /\ s.t # "N" -> [mid EXCEPT !.sdead = SetAt(@, s.a, TRUE, FALSE)]
+          [] s.k = "sunsub" -> [mid EXCEPT !.sdead = SetAt(@, s.a, TRUE, FALSE)]
           [] OTHER -> mid
-      (* the reference oracle decides every property whose statement is "delivers exactly the documented sequence" *)
+      (* the reference oracle *)
       refIds == checks \cap RefProps
       r1 == IF refIds # {} /\ o.fault = "" /\ ~RefCheck(post) THEN AddBads(post, refIds) ELSE post
-      r2 == IF "C05" \in checks /\ o.fault # "" THEN AddBad(r1, "C05") ELSE r1
-  IN r2
+      r2 == Flag(r1, o.fault # "", "C05", checks)
+      r3 == Flag(r2, "C20" \in checks /\ o.fault = "" /\ ~GroupCheck(r2, C), "C20", checks)
+      (* C06: a subject that has terminated or was unsubscribed reports itself finished and empty *)
+      r4 == Flag(r3, s.k = "squery" /\ o.fault = "" /\ GetB(r3.sdead, s.a)
+                       /\ o.ret # (IF s.b = 1 THEN I(0) ELSE B(TRUE)), "C06", checks)
+      (* C12: peek() is the most recent value *)
+      r5 == Flag(r4, s.k = "bpeek" /\ o.fault = "" /\ o.ret # BLatest(r4.g, Len(r4.g), s.a), "C12", checks)
+      (* C15: the finalizer has run exactly once per subscription that was completed, failed or unsubscribed *)
+      r6 == Flag(r5, o.fault = "" /\ o.cnt[CntFin] # CountTrue(r5.trig), "C15", checks)
+      (* C13: building does no work; every subscription of a cold pipeline observes the same *)
+      norm == [i \in 1..Len(o.log) |-> <<o.log[i].p - m.np, o.log[i].t, o.log[i].v>>]
+      delta == [i \in 1..NCnt |-> o.cnt[i] - m.lastcnt[i]]
+      r7 == IF "C13" \notin checks \/ o.fault # "" THEN r6
+            ELSE IF s.k = "build" THEN Flag(r6, o.log # <<>> \/ o.cnt # Cnt0, "C13", checks)
+            ELSE IF s.k = "sub" /\ s.b = 0 THEN
+              (IF r6.first = <<>> THEN [r6 EXCEPT !.first = <<norm, delta>>]
+               ELSE Flag(r6, r6.first # <<norm, delta>>, "C13", checks))
+            ELSE r6
+      (* C11: publish does not subscribe its source before connect(); share subscribes it exactly once *)
+      r8 == Flag(r7, o.fault = "" /\ ((~r7.connected /\ o.cnt[CntDefer] # 0) \/ (r7.connected /\ o.cnt[CntDefer] # 1)), "C11", checks)
+      (* C11: once the last subscriber of a shared observable has left, its source is no longer driven       *)
+      (* (observed through the tap counter upstream of share); known finding F13                             *)
+      subsOf == {h \in 1..m.nh : m.hroot[h] > 0 /\ ShareIn(m.hroot[h]) > 0 /\ Op(ShareIn(m.hroot[h])) = "share"}
+      allLeft == subsOf # {} /\ \A h \in subsOf : GetI(m.hend, h) > 0
+      r9 == Flag(r8, "F13" \notin KF /\ s.k \in {"emit", "emitc"} /\ o.fault = "" /\ allLeft
+                     /\ o.cnt[CntTap] > m.lastcnt[CntTap], "C11", checks)
+  IN [r9 EXCEPT !.lastcnt = o.cnt]
 
 RECURSIVE MonRun(_, _, _)
 (* all property ids violated somewhere along a behaviour *)
-MonRun(m, steps, checks) ==
+MonRun(m, steps, C) ==
   IF steps = <<>> THEN <<>>
-  ELSE LET m1 == MonStep(m, Head(steps), checks) IN
-       m1.bad \o MonRun(m1, Tail(steps), checks)
+  ELSE LET m1 == MonStep(m, Head(steps), C) IN
+       m1.bad \o MonRun(m1, Tail(steps), C)
 =============================================================================
